@@ -667,10 +667,18 @@ def to_str(ex, v):
     raise Unsupported(f"str() of {v!r}")
 
 
+py_repr = z3.Function("py_repr", z3.StringSort(), z3.StringSort())
+UF["py_repr"] = (py_repr, repr)
+
+
 def repr_(ex, v):
     if all_concrete([v]):
         return repr(v)
-    # repr text only appears in exception messages, which no property observes
+    if is_sym(v) and v.ty.kind == "str":
+        return SV(py_repr(v.t), STR)
+    if is_sym(v) and v.ty.kind == "opt" and v.ty.inner.kind == "str":
+        return SV(z3.If(v.ty.is_none(v.t), z3.StringVal("None"), py_repr(v.ty.val(v.t))), STR)
+    # other repr texts only appear in exception messages, which no property observes
     return SV(fresh_term(z3.StringSort(), "repr"), STR)
 
 
